@@ -79,6 +79,10 @@ def mk_not(a):
         return const(not a.val)
     if a.op == 'not':
         return a.args[0]
+    if a.op == '<=' and a.args[0].sort in (INT, REAL):
+        return mk_lt(a.args[1], a.args[0])
+    if a.op == '<' and a.args[0].sort in (INT, REAL):
+        return mk_le(a.args[1], a.args[0])
     return T('not', (a,), BOOL)
 
 
